@@ -29,6 +29,79 @@ func (c TSConfig) String() string {
 	return fmt.Sprintf("(%d,%d,%d,%d,%d,%d)", c.A, c.B, c.C, c.D, c.E, c.F)
 }
 
+// TSDispatch is an optional extension of a model: the function a dynamic call runs in a
+// configuration (a handler taken from a table keyed by the session state).
+type TSDispatch interface {
+	ResolveCallee(call *ssa.Call, c TSConfig) *ssa.Function
+}
+
+// TableCallee resolves a call through a function taken from a package-level map literal that
+// is indexed by a value the caller can evaluate (handlers[s.state]): v is the called value,
+// keyOf reports the constant the index expression has in the current configuration. The map
+// must be written only by its initialiser.
+func TableCallee(v ssa.Value, keyOf func(idx ssa.Value) (int64, bool)) *ssa.Function {
+	if ex, ok := v.(*ssa.Extract); ok && ex.Index == 0 {
+		v = ex.Tuple
+	}
+	lk, ok := v.(*ssa.Lookup)
+	if !ok {
+		return nil
+	}
+	u, ok := lk.X.(*ssa.UnOp)
+	if !ok || u.Op != token.MUL {
+		return nil
+	}
+	g, ok := u.X.(*ssa.Global)
+	if !ok || g.Pkg == nil {
+		return nil
+	}
+	key, known := keyOf(lk.Index)
+	if !known {
+		return nil
+	}
+	var mm *ssa.MakeMap
+	clean := true
+	for _, m := range g.Pkg.Members {
+		f, isF := m.(*ssa.Function)
+		if !isF {
+			continue
+		}
+		for _, h := range WithAnons(f) {
+			EachInstr(h, func(in ssa.Instruction) {
+				switch x := in.(type) {
+				case *ssa.Store:
+					if x.Addr == ssa.Value(g) {
+						if mk, isMk := x.Val.(*ssa.MakeMap); isMk && h.Name() == "init" && mm == nil {
+							mm = mk
+						} else {
+							clean = false
+						}
+					}
+				case *ssa.MapUpdate:
+					if lu, ok := x.Map.(*ssa.UnOp); ok && lu.X == ssa.Value(g) {
+						clean = false
+					}
+				}
+			})
+		}
+	}
+	if mm == nil || !clean || mm.Referrers() == nil {
+		return nil
+	}
+	for _, ref := range *mm.Referrers() {
+		mu, ok := ref.(*ssa.MapUpdate)
+		if !ok {
+			continue
+		}
+		if k, isC := ConstInt(mu.Key); isC && k == key {
+			if f, _, isFn := FuncValueOf(mu.Value); isFn {
+				return f
+			}
+		}
+	}
+	return nil
+}
+
 // TSEval is an optional extension of a model: the truth of a boolean value in a configuration.
 type TSEval interface {
 	EvalBool(v ssa.Value, c TSConfig) (val, known bool)
@@ -219,6 +292,11 @@ func (t *TS) Exec(fn *ssa.Function, entry TSConfig) []TSConfig {
 								continue // calling the nil function panics: no successor
 							}
 							g = b.fn
+						}
+					}
+					if g == nil && !x.Call.IsInvoke() {
+						if d, ok := t.M.(TSDispatch); ok {
+							g = UnwrapBound(d.ResolveCallee(x, c))
 						}
 					}
 					if g != nil && t.M.Descend(g) {
